@@ -387,6 +387,33 @@ def hostile_member(rng, short=False):
     return core
 
 
+def hostile_pair(rng, short=False):
+    """Two members of one pattern that differ only in the non-ASCII characters of one group
+    ('1 U.S. ١٢' / '1 U.S. ٣٤'): different citations whose ASCII projections coincide."""
+    hostile_member(rng, short)          # builds the table
+    found = _hostile_member[bool(short)]
+    if not found:
+        return None
+    ch0, g = rng.choice(sorted(found))
+    e, rx, core, how = rng.choice(found[(ch0, g)])
+    m = rx.fullmatch(core)
+    a, b = m.span(g)
+    pool = HOSTILE_GROUP_CHARS[ch0]
+    if len(pool) < 2:
+        return None
+    c1, c2 = rng.sample(pool, 2)
+    n = max(1, b - a)
+    out = []
+    for ch in (c1, c2):
+        cand = {"append": core[:b] + ch + core[b:], "last": core[:b - 1] + ch + core[b:],
+                "first": core[:a] + ch + core[a:], "all": core[:a] + ch * n + core[b:]}[how]
+        m2 = rx.fullmatch(cand)
+        if not (m2 and ch in (m2.group(g) or "")):
+            return None
+        out.append(cand)
+    return tuple(out)
+
+
 FOLD_TWINS = {"s": "ſ", "i": "ı", "I": "İ", "k": "K", "K": "K"}
 
 
